@@ -126,6 +126,29 @@ func runSuffix(s *Script, rec *Rec) {
 				e["lcps"] = [][]int{}
 			}
 			rec.Emit(e)
+		case "trcopy":
+			// one call of trCopy / trPartialCopy in a situation enumerated by
+			// TrCopy.tla (verif export VerifTrCopy)
+			toI32 := func(v any) []int32 {
+				a, _ := v.([]any)
+				out := make([]int32, len(a))
+				for i, x := range a {
+					out[i] = int32(num(x))
+				}
+				return out
+			}
+			sa, isa := toI32(op["sa"]), toI32(op["isa"])
+			e := Event{"op": name, "sa": i32(sa), "isa": i32(isa), "first": int(num(op["first"])), "a": int(num(op["a"])),
+				"b": int(num(op["b"])), "last": int(num(op["last"])), "depth": int(num(op["depth"])), "partial": boolean(op["partial"])}
+			ok := rec.Call(name, func() {
+				suffix.VerifTrCopy(sa, isa, int(num(op["first"])), int(num(op["a"])), int(num(op["b"])),
+					int(num(op["last"])), int(num(op["depth"])), boolean(op["partial"]))
+			})
+			if !ok {
+				return
+			}
+			e["sa_after"], e["isa_after"] = i32(sa), i32(isa)
+			rec.Emit(e)
 		case "suffixstages":
 			// the arrays of the sort driver between its stages (verif hook),
 			// compared with the stage model DivSufSort.tla
@@ -480,6 +503,12 @@ func genSegments(seed int64, n int, tier string) []Script {
 			minL := pickInt(r, 0, 0, 1, 2, 3, maxL, maxL+1)
 			if minL > maxL && r.Intn(3) != 0 {
 				minL = maxL
+			}
+			if minL > 1<<31-1 {
+				// Segments checks its arguments against the int32 range of
+				// the LCP table and panics deliberately beyond it; such a
+				// pair (minLen > maxLen as well) is outside C10
+				minL = 1<<31 - 1
 			}
 			ops = append(ops, map[string]any{"op": "segments", "t": B2(t), "minlen": minL, "maxlen": maxL,
 				"src": pickStr(r, "lib", "naive"), "permute": r.Intn(2) == 0, "class": class})
